@@ -38,8 +38,14 @@ def run_all(a) -> int:
         pid = os.path.basename(f)[:-3].upper()
         ck = report.Check(pid, model, "quick")
         try:
-            evaluate(pid, model, "quick", ck)
+            early = None
+            try:
+                evaluate(pid, model, "quick", ck)
+            except AnalysisError as e:
+                early = e
             new, matched = report.classify(pid, ck.violations())
+            if early is not None and not new:
+                raise early
             if new:
                 code = 1
                 detail = " | ".join(f"{o.rule} {o.construct}: {o.msg[:160]}" for o in new[:3])
@@ -72,7 +78,15 @@ def main(argv=None) -> int:
     try:
         model = Model(a.repo)
         ck = report.Check(pid, model, a.tier)
-        evaluate(pid, model, a.tier, ck)
+        early = None
+        try:
+            evaluate(pid, model, a.tier, ck)
+        except AnalysisError as e:
+            # a rule could not continue; violations established before that point are still violations
+            early = e
+            if not report.classify(pid, ck.violations())[0]:
+                raise
+            print(f"ANALYSIS-NOTE property={pid}: analysis stopped early ({str(e)[:200]}); reporting the violations established so far")
         extra = {}
         if a.tier == "thorough":
             from . import mutate
@@ -104,6 +118,8 @@ def main(argv=None) -> int:
                 print(f"SELFTEST-NOTE: {p}")
         if not new and ck.deferred:
             raise AnalysisError("; ".join(ck.deferred))
+        if not new and early is not None:
+            raise early
         if new:
             for o in new:
                 print(f"  {o.rule} {o.loc} in {o.construct}: {o.msg}\n      statement: {o.stmt}\n      rule: {ck.rules.get(o.rule, '')}")
